@@ -88,11 +88,12 @@ type FT struct {
 	nfresh        int
 	abstractions  map[string]int
 	trusted       map[string]bool
-	collect       bool            // pass 1: only collect loop write sets
-	orphanKeys    map[string]bool // range keys of invariants that match no loop of the function itself (a loop moved into a helper)
-	adoptFn       *ssa.Function   // helper being inlined for adoption
-	adoptedBodies map[*Body]bool  // inlined helpers whose loops take the function's orphan invariants
-	rg            bool            // rely/guarantee tier: other requests act between two store/Lightning calls
+	collect       bool                 // pass 1: only collect loop write sets
+	retIDs        map[token.Pos]string // stable names of return statements
+	orphanKeys    map[string]bool      // range keys of invariants that match no loop of the function itself (a loop moved into a helper)
+	adoptFn       *ssa.Function        // helper being inlined for adoption
+	adoptedBodies map[*Body]bool       // inlined helpers whose loops take the function's orphan invariants
+	rg            bool                 // rely/guarantee tier: other requests act between two store/Lightning calls
 	loopWrites    map[*ssa.BasicBlock]map[string][]writeRec
 	usedFns       map[string]bool
 	entry         State
